@@ -200,6 +200,15 @@ v('seek-on-kept-cursor','C06.scan-start,C06.fresh-cursor','vtable_common.go','''
 	}
 	if !c.desc {''')
 
+v('mapop-gt-as-lt','C06.op-table','sqlite/vtable.go','''	case sqlite.INDEX_CONSTRAINT_GT:
+		return s3db.OpGT''','''	case sqlite.INDEX_CONSTRAINT_GT:
+		return s3db.OpLT''')
+v('window-eq-strict','C06.window','vtable_common.go','''				c.ltMax = op == OpLT''','''				c.ltMax = op != OpLE''')
+v('window-ge-tightens-max','C06.window','vtable_common.go','''		if op == OpLT || op == OpLE || op == OpEQ {''','''		if op == OpLT || op == OpLE || op == OpEQ || op == OpGE {''')
+v('next-stops-at-equal','C06.window-next','vtable_common.go','''				if c.ltMax && cmp >= 0 || cmp > 0 {''','''				if cmp >= 0 {''')
+v('next-skips-min-always','C06.window-next','vtable_common.go','''			if c.min != nil && c.gtMin && k.(*Key).Order(c.min) == 0 {''','''			if c.min != nil && k.(*Key).Order(c.min) == 0 {''')
+v('next-desc-stops-above-min','C06.window-next','vtable_common.go','''				if c.gtMin && cmp <= 0 || cmp < 0 {''','''				if c.gtMin && cmp <= 0 || cmp > 0 {''')
+
 outdir=HERE+'/checker/selftest/variants'
 for f in os.listdir(outdir):
     if f.startswith('hc-'): os.remove(outdir+'/'+f)
